@@ -194,6 +194,13 @@ fn exp_ref(t: Hp) -> Option<Hp> {
     Some(hp::exp(t))
 }
 
+/// C12: "results that do not fit yield Err". Decided with a wide margin on the side of silence: the true value less
+/// the error the accuracy property would allow still exceeds twice the largest value of the type.
+fn does_not_fit(d: Layout, reference: Hp, bound: Hp) -> bool {
+    let max2 = hp_of(&d.z(d.max_raw()), d.frac).mul_small(2).add(Hp::one());
+    max2.lt(&reference.abs().sub(bound))
+}
+
 pub fn exp_verdict(s: Layout, d: Layout, a: u128, out: TOut) -> Verdict {
     let TOut::Ok(r) = out else { return Verdict::Unjudged };
     let x = to_dst(s, d, a);
@@ -214,6 +221,9 @@ pub fn exp_verdict(s: Layout, d: Layout, a: u128, out: TOut) -> Verdict {
         None => bad("accuracy", "Err: e^x is far beyond the range of the type".into(), format!("operand = {} * 2^-{}", x, d.frac), f64::INFINITY),
         Some(reference) => {
             let bound = reference.shr(20).add(ulp(d).mul_small(64));
+            if does_not_fit(d, reference, bound) {
+                return bad("accuracy", "Err: e^x does not fit the type".into(), format!("operand about {:.6}; e^x is about {:.6e}", xh.to_f64(), reference.to_f64()), f64::INFINITY);
+            }
             let err = rh.sub(reference).abs();
             if within(err, bound) {
                 Verdict::Fine { ratio: ratio(err, bound) }
@@ -272,6 +282,9 @@ pub fn pow_verdict(s: Layout, d: Layout, a: u128, b: u128, out: TOut) -> Verdict
             // relative 2^-18 + |y ln x| 2^-22 + 16 |y| 2^-F, plus 64 ulp
             let rel = Hp::one().shr(18).add(t.abs().shr(22)).add(yh.abs().mul_small(16).shr(d.frac));
             let bound = rel.mul(reference).add(ulp(d).mul_small(64));
+            if does_not_fit(d, reference, bound) {
+                return bad("accuracy", "Err: x^y does not fit the type".into(), format!("x = {:.9e}, y = {:.9e}, x^y about {:.9e}", xh.to_f64(), yh.to_f64(), reference.to_f64()), f64::INFINITY);
+            }
             let err = rh.sub(reference).abs();
             if within(err, bound) {
                 Verdict::Fine { ratio: ratio(err, bound) }
@@ -345,6 +358,9 @@ pub fn powi_verdict(s: Layout, d: Layout, a: u128, n: i32, out: TOut, powi: &dyn
                 Hp::one()
             };
             let bound = ulp(d).mul_small(n as u64 + 1).mul(scale);
+            if does_not_fit(d, reference, bound) {
+                return bad("accuracy", "Err: x^n does not fit the type".into(), format!("x = {:.12e}, n = {}, x^n about {:.12e}, result {:.12e}", xh.to_f64(), n, reference.to_f64(), rh.to_f64()), f64::INFINITY);
+            }
             let err = rh.sub(reference).abs();
             // the reference carries a relative error of about 2^-230 n
             let slack = reference.abs().shr(200);
